@@ -341,6 +341,7 @@ pub fn trace_motion(lb: &LineBuf, cmd: &ViCmd, mk: &MotionKind) {
 		"undo_op": cmd.is_undo_op(),
 		"char_insert": cmd.verb.as_ref().is_some_and(|v| v.1.is_char_insert()),
 		"is_edit": cmd.verb.as_ref().is_some_and(|v| v.1.is_edit()),
+		"repeatable": cmd.is_repeatable(),
 		"verb": cmd.verb.as_ref().map(|v| format!("{:?}", v.1)),
 		"verb_count": cmd.verb.as_ref().map(|v| v.0),
 		"reg": json!([cmd.register.name().map(|c| c.to_string()), cmd.register.is_append()]),
